@@ -236,6 +236,13 @@ struct Run {
 	}
 	void call_run_atomic(int g, const char *who)
 	{
+		if (m.atomicq.size() >= 8) {
+			// scope of the properties: at most 8 undrained requests. What the 9th returns is not specified
+			// (a larger queue, or a drain at another moment, would be legitimate), so it is not issued.
+			c->cls("skipped-op");
+			c->cls("request-queue-at-documented-capacity");
+			return;
+		}
 		int r = af_run_atomic(g);
 		bool e = m.run_atomic(g);
 		c->note("  %sfibre_run_atomic(%d) -> %d", who, g, r);
